@@ -239,7 +239,7 @@ Delivered == {id \in 1..N : \E i \in Finished : \E k \in 1..Len(batch[i]) : batc
 
 CauseApplies == /\ cause # "none"
                 /\ \/ cause = "build" /\ cfg.farmer \in {"runner", "harvester"}
-                   \/ cause = "merge" /\ cfg.farmer = "harvester"
+                   \/ cause = "merge" /\ cfg.farmer = "harvester" /\ 1 \in Delivered   \* the data on disk conflicts at setting 1
                    \/ cause = "save"  /\ cfg.farmer \in {"harvester", "sampler"}
 
 Reap(c, a) ==
@@ -248,8 +248,13 @@ Reap(c, a) ==
             \* check_ready_to_reap refuses
             /\ outcome' = "refused"
             /\ UNCHANGED <<dir, store, value>>
-       ELSE IF HasBad \/ Finished = {} \/ Len(Chain) # N THEN
-            \* an unreadable result, nothing to infer a placeholder from, or a mis-sized placeholder
+       ELSE IF Finished = {} THEN
+            \* nothing to infer a placeholder from: an error, unless this handle still caches the placeholder of
+            \* an earlier partial reap - the property (C09: "at least one finished batch") leaves this case open
+            /\ outcome' = "error_nothing"
+            /\ UNCHANGED <<dir, store, value>>
+       ELSE IF HasBad \/ Len(Chain) # N THEN
+            \* an unreadable result, or a mis-sized placeholder
             /\ outcome' = "error"
             /\ UNCHANGED <<dir, store, value>>
        ELSE IF CauseApplies THEN
@@ -360,10 +365,10 @@ DeleteOnlyAfterDelivery ==
          /\ outcome' \in {"complete", "partial"}
          /\ (cfg.farmer \in {"harvester", "sampler"} => Delivered \subseteq store')]_vars
 FailedReapKeepsCrop ==
-    [][outcome' \in {"error", "refused"} => UNCHANGED <<dir, res, batch, store>>]_vars
+    [][outcome' \in {"error", "error_nothing", "refused"} => UNCHANGED <<dir, res, batch, store>>]_vars
 
 TypeOK == /\ dir \in {"none", "present", "deleted"}
-          /\ outcome \in {"none", "ok", "raised", "refused", "error", "complete", "partial"}
+          /\ outcome \in {"none", "ok", "raised", "refused", "error", "error_nothing", "complete", "partial"}
 
 -----------------------------------------------------------------------------
 (* emission of complete behaviours for the replay *)
